@@ -67,6 +67,42 @@ def _ext():
 EXT = None
 
 
+def _vext():
+    """value-bearing term classes (C04): built from a class name and a list of (pairwise distinct) constants"""
+    import pypika_tortoise as P
+    from pypika_tortoise import analytics as an
+    from pypika_tortoise import functions as fn
+    from pypika_tortoise.terms import Negative, Not, Tuple
+
+    def t1(e):
+        return e.src["T1"]
+    return {
+        "AggFilter": (2, lambda e, v: fn.Sum(t1(e).b * v[0]).filter(t1(e).c == v[1])),
+        "AggFilter2": (3, lambda e, v: fn.Sum(t1(e).b + v[0]).filter(t1(e).c == v[1]).filter(t1(e).a > v[2])),
+        "CountFilter": (2, lambda e, v: fn.Count(P.Case().when(t1(e).b == v[0], 1)).filter(t1(e).c != v[1])),
+        "AnalyticFilter": (2, lambda e, v: an.Sum(t1(e).b * v[0]).filter(t1(e).a == v[1]).over(t1(e).c)),
+        "WindowOrder": (3, lambda e, v: an.Sum(t1(e).b + v[0]).over(t1(e).c + v[1]).orderby(t1(e).a + v[2])),
+        "Bitand": (2, lambda e, v: t1(e).b.bitwiseand(v[0]) == v[1]),
+        "Like": (1, lambda e, v: t1(e).b.like(str(v[0]))),
+        "JsonGet": (2, lambda e, v: t1(e).b.get_json_value(str(v[0])) == v[1]),
+        "Mod": (2, lambda e, v: (t1(e).b % v[0]) + v[1]),
+        "Pow": (2, lambda e, v: (t1(e).b ** v[0]) - v[1]),
+        "Cast": (1, lambda e, v: fn.Cast(P.terms.ValueWrapper(v[0]), "TEXT")),
+        "Tuple": (2, lambda e, v: Tuple(t1(e).b, v[0]) == Tuple(t1(e).c, v[1])),
+        "Not": (1, lambda e, v: Not(t1(e).b == v[0])),
+        "Neg": (1, lambda e, v: Negative(t1(e).b + v[0])),
+        "NestedCase": (5, lambda e, v: P.Case().when(t1(e).b == v[0], P.Case().when(t1(e).c == v[1], v[2]).else_(v[3])).else_(v[4])),
+        "Func3": (2, lambda e, v: fn.Concat(v[0], t1(e).b, v[1])),
+        "Substring": (2, lambda e, v: fn.Substring(t1(e).b, v[0], v[1])),
+        "NotIn": (2, lambda e, v: t1(e).b.notin([v[0], v[1]])),
+        "IsinSubquery": (2, lambda e, v: t1(e).b.isin(e.Q.from_(e.src["T2"]).select(e.src["T2"].a + v[0]).where(e.src["T2"].b == v[1]))),
+        "XorChain": (3, lambda e, v: (t1(e).b == v[0]) ^ (t1(e).c == v[1]) ^ (t1(e).a == v[2])),
+    }
+
+
+VEXT = None
+
+
 class Env:
     """fresh objects for one execution under one dialect class"""
 
@@ -143,6 +179,12 @@ class Env:
                 r = r.orderby(self.term(x))
         elif k == "ext":
             r = EXT[t["cls"]](self)
+        elif k == "vext":
+            global VEXT
+            if VEXT is None:
+                VEXT = _vext()
+            conv = {"num": lambda x: int(x["n"]), "str": lambda x: x["n"], "flt": lambda x: float(x["n"])}
+            r = VEXT[t["cls"]][1](self, [conv[x["k"]](x) for x in t["vals"]])
         else:
             raise core.MachineryError("term kind " + k)
         if al:
